@@ -65,6 +65,7 @@ pub open spec fn unbonding_entry(d: Addr, v: Seq<char>, amount: Uint128, now: Ti
 //@   ensures [C14.exec.delegate] match msg { StakingMsg::Delegate { validator, amount } => r is Ok ==> delegated(router, *self, old(storage).view(), final(storage).view(), *block, sender, validator@, amount), _ => true }
 //@   ensures [C14.exec.undelegate] match msg { StakingMsg::Undelegate { validator, amount } => r is Ok ==> undelegated(old(storage).view(), final(storage).view(), *block, sender, validator@, amount), _ => true }
 //@   ensures [C14.exec.redelegate] match msg { StakingMsg::Redelegate { src_validator, dst_validator, amount } => r is Ok ==> redelegated(old(storage).view(), final(storage).view(), *block, sender, src_validator@, dst_validator@, amount), _ => true }
+//@   ensures [C15.exec.self_redelegate_keeps_rewards] match msg { StakingMsg::Redelegate { src_validator, dst_validator, amount } => (r is Ok && src_validator@ == dst_validator@) ==> exists|sm: St| upd_post(sw(old(storage).view()), sm, src_validator@, block.time) && accrued_of(sw(final(storage).view()), sender, src_validator@) == accrued_of(sm, sender, src_validator@), _ => true }
 //@   begin broadcast use {axiom_vec_canon, axiom_vec_of_view, axiom_str_canon, axiom_str_of_view, lemma_str_ext_b, lemma_vec_ext_b}; let ghost s0 = storage.view(); let ghost sender0 = sender; proof { lemma_splice_same(storage.view(), lp(ns_staking())); }
 //@   replace* "..Default::default()" => "data: None"
 //@   after "re:^\\s*\\)\\?;\\s*$@@0" let ghost w1 = staking_storage.view(); let ghost amount0 = amount; proof { assert(w1 == sw(staking_storage.base_view())); }
@@ -124,6 +125,8 @@ pub open spec fn undelegated(s0: St, s1: St, block: BlockInfo, sender: Addr, v: 
             &&& forall|k: Seq<u8>| k != k_queue() ==> #[trigger] same_at(sw(s1), w1, k)
         })
 }
+// the reward already credited to d's delegation with v (0 when there is no entry)
+pub open spec fn accrued_of(w: St, d: Addr, v: Seq<char>) -> nat { match get_shares(w, d, v) { Ok(Some(x)) => x.rewards.atomics as nat, _ => 0 } }
 // Redelegate: remove from the source validator, then add to the destination validator; no tokens move
 pub open spec fn redelegated(s0: St, s1: St, block: BlockInfo, sender: Addr, src: Seq<char>, dst: Seq<char>, amount: Coin) -> bool {
     &&& amount.denom@ == sinfo_denom(sw(s0))
